@@ -1,5 +1,6 @@
 import WebPkg.Proofs.ResParsers
 import WebPkg.Proofs.BundleSafe
+import WebPkg.Proofs.ResRefine
 /-
   C10 — Every parser of external data is total and resource-bounded.
 
@@ -55,6 +56,37 @@ theorem verify_linear (sigHeader certBytes payload : Bytes) (d02 : Bool) :
     (verifyCost sigHeader certBytes payload d02).alloc ≤ 6 * (sigHeader.length + certBytes.length + payload.length) + 16914 ∧
     (verifyCost sigHeader certBytes payload d02).steps ≤ 6 * (sigHeader.length + certBytes.length + payload.length) + 16915 :=
   verifyCost_linear sigHeader certBytes payload d02
+
+
+/-! ### the skeletons are upper bounds of the full models' control flow
+    (whenever the full model of a parser accepts an input, its cost skeleton accepts it too: dropping an early exit only
+    lets the skeleton go further; for the CBOR entry points the two coincide exactly) -/
+theorem skeleton_cbor_exact (bs : Bytes) :
+    (RM.run (cborEntry .uint) bs).1.isSome = (Cbor.decodeUint bs).isSome ∧
+    (RM.run (cborEntry .arrayHeader) bs).1.isSome = (Cbor.decodeArrayHeader bs).isSome ∧
+    (RM.run (cborEntry .mapHeader) bs).1.isSome = (Cbor.decodeMapHeader bs).isSome ∧
+    (RM.run (cborEntry .bytes) bs).1.isSome = (Cbor.decodeByteString bs).isSome ∧
+    (RM.run (cborEntry .text) bs).1.isSome = (Cbor.decodeTextString bs).isSome :=
+  ⟨rr_cbor_uint bs, rr_cbor_arrayHeader bs, rr_cbor_mapHeader bs, rr_cbor_bytes bs, rr_cbor_text bs⟩
+
+theorem skeleton_accepts_certChain (parseOk : Bytes → Bool) (bs : Bytes) :
+    (CertChain.read parseOk bs).isSome = true → (RM.run certChain bs).1 = some () := rr_certChain parseOk bs
+
+theorem skeleton_accepts_signedSubset (urlOk : Bytes → Bool) (bs : Bytes) (ss : BSig.SignedSubset) :
+    BSig.decodeSignedSubset urlOk bs = some ss → (RM.run signedSubset bs).1 = some () := rr_signedSubset urlOk bs ss
+
+theorem skeleton_accepts_sxg (url : Sxg.UrlFacts) (bs : Bytes) (e : Sxg.Exchange) :
+    Sxg.read url bs = .ok e → (RM.run sxgRead bs).1 = some () := rr_sxgRead url bs e
+
+theorem skeleton_accepts_mice (H : Bytes → Bytes) (enc : Mice.Enc) (bs digest : Bytes) (mx : Nat) (st : Mice.State) :
+    Mice.newDecoder H enc bs digest mx = .ok st → (RM.run (miceDecode (enc == .draft02) mx) bs).1 = some () :=
+  rr_mice H enc bs digest mx st
+
+/-- and for the bundle reader, with the same number of index entries as exchanges returned -/
+theorem skeleton_accepts_bundle (url : Bundle.BUrlFacts) (parseOk : Bytes → Bool) (bs : Bytes) (b : Bundle.Bundle)
+    (hlen : bs.length < 2 ^ 64) :
+    Bundle.read url parseOk bs = .ok b → (bundleRead bs).1 = some () ∧ (bundleRead bs).2.2.length = b.exchanges.length :=
+  rr_bundleRead url parseOk bs b hlen
 
 /-! ### bundle reader -/
 
